@@ -346,6 +346,15 @@ UNITS['U04d'] = dict(
     assumptions=['R10: `arg0: &dyn Data` replaced by a typed view with the same cast_ref_* accessor', 'the stack machine of decode (order of ops, Nullable, PushDataSection, DictLookup, LZ4, Pco, UnpackStrings arms) is not covered'],
     not_covered=['column::decode control structure (section stack), string / compression arms (the UnhexpackStrings arm is a known finding: todo!())'])
 
+UNITS['U43n'] = dict(
+    kind='native', crate='kani/U43n', bin='vx_u43n', timeout_s=900,
+    pool='3 rows: every index triple over a 3-entry dictionary and every presence pattern (dictionary string columns, with and without NULLs); stored bytes over {0, 1, 7, 255}^3, offsets {0, -3, 1000, i64::MIN/4}, delta on/off, every presence pattern (all eight entries of the narrow-integer codec table)',
+    title='BOUNDED exhaustive enumeration (native, not a proof): the free fn column::decode (whole fn, the stack machine compaction reads stored columns with) on the codecs the ingestion side builds - dictionary string columns (dict_codec item + presence attachment slice of fast_build_string_column) and every entry of the narrow-integer codec table (slice of IntegerColumn::create_col): NULL stays NULL, values stay values',
+    assumptions=['R10: `dyn Data` reduced to the accessors decode calls; Vec<T> / NullableVec<T> implement them as the real ones do (cast_ref_<t> gives the payload also of a nullable vector, get_type is the nullable type, make_nullable pairs payload and bitmap, slice_box(0, len) is the whole vector); Codec reduced to its op list',
+                 'lz4 / pco / packed-string back ends are stand-ins that must not be reached (they are not, for these codecs)',
+                 'the same harnesses as Kani proofs (symbolic values, 2 rows) did not finish in 15 min each - dynamic dispatch over dyn Data; hence a native enumeration over a stated pool (bounded stand-in, reported under coverage.bounded)'],
+    not_covered=['columns outside the pool', 'LZ4 / Pco / UnpackStrings / UnhexpackStrings arms (compressed sections)', 'u16 / u32 payloads (element arms are U04d)', 'float columns (their codec is PushDataSection + Nullable only)', 'the compaction loop around decode'])
+
 UNITS['U22k'] = dict(
     kind='kani', crate='kani/U22', timeout_s=700, mem_gb=12, jobs=2,
     title='ATTEMPT, belongs to no check (CBMC does not finish): inner_locustdb::subpartition column ordering and grouping into files (slice), 3 columns, two fixed name sets',
@@ -560,7 +569,7 @@ PROPS = {
                 technique='contract-based deductive verification (Kani complete + bounded harnesses) of extracted slices',
                 explanation='U13k: loop-free harnesses over all (limit, offset, len) - complete. U21k: LIMIT / OFFSET literals of at most 4 characters over 0-9 . e - (bounded) and the statement list of parse_query for 0, 1, 2 statements (complete). U19 / U27k: the NULL column that stands in for an unknown column has as many rows as the filter keeps (Verus / complete Kani). Everything else about query strings is outside the reach of contracts on this code base.',
                 assumptions=[], not_covered=['sqlparser', 'convert_to_native_expr', 'BatchResult::validate', 'unknown tables / columns handling']),
-    'C07': dict(level='proof', units=['U02', 'U03', 'U04k', 'U04v', 'U04d', 'U22n'],
+    'C07': dict(level='proof', units=['U02', 'U03', 'U04k', 'U04v', 'U04d', 'U22n', 'U43n'],
                 level_text='Verus proofs of the column rebuild kernels used by compaction: ColumnBuffer append with null maps (incl. the incoming-null-map path that only compaction takes), string packing round trip, integer encode / delta / decode kernels; complete Kani proof of the width/offset choice',
                 level_note='plan_compaction, Table::compact swap, eviction (LRU), and the free stack-machine column::decode over dyn Data are not covered; that a column evicted or compacted is reloaded from the file it was written to is covered only by the bounded native enumeration U22n; see known findings',
                 technique='contract-based deductive verification (Verus + Kani complete) of extracted functions and slices',
